@@ -59,6 +59,35 @@ func Extract(root string) (Facts, error) {
 			info := &types.Info{Types: map[ast.Expr]types.TypeAndValue{}}
 			conf := types.Config{Importer: imp, Error: func(error) {}}
 			_, _ = conf.Check(dir, fset, files, info)
+			// functions of this package that range over a map and do not sort: their callers inherit the order
+			orderLeaking = map[string]bool{}
+			for _, file := range files {
+				for _, d := range file.Decls {
+					fd, ok := d.(*ast.FuncDecl)
+					if !ok || fd.Body == nil {
+						continue
+					}
+					ranges, sorts := false, false
+					ast.Inspect(fd.Body, func(m ast.Node) bool {
+						switch t := m.(type) {
+						case *ast.RangeStmt:
+							if tv, ok := info.Types[t.X]; ok && tv.Type != nil {
+								if _, isMap := tv.Type.Underlying().(*types.Map); isMap {
+									ranges = true
+								}
+							}
+						case *ast.CallExpr:
+							if fun := text(fset, t.Fun); strings.HasPrefix(fun, "sort.") || strings.HasPrefix(fun, "slices.Sort") {
+								sorts = true
+							}
+						}
+						return true
+					})
+					if ranges && !sorts {
+						orderLeaking[fd.Name.Name] = true
+					}
+				}
+			}
 			for _, file := range files {
 				extractFile(f, fset, info, dir, file)
 			}
@@ -71,6 +100,9 @@ func Extract(root string) (Facts, error) {
 	}
 	return f, nil
 }
+
+// orderLeaking: names of the functions of the package being extracted that range over a map without sorting
+var orderLeaking = map[string]bool{}
 
 func isErrorType(t types.Type) bool {
 	if t == nil {
@@ -220,6 +252,13 @@ func extractFunc(f Facts, fset *token.FileSet, info *types.Info, dir, fn string,
 				}
 			case *ast.CallExpr:
 				fun := text(fset, t.Fun)
+				if last := fun[strings.LastIndex(fun, ".")+1:]; orderLeaking[last] && !strings.Contains(fun, "(") {
+					args := make([]string, len(t.Args))
+					for i, a := range t.Args {
+						args[i] = text(fset, a)
+					}
+					f["mapRanges"] = append(f["mapRanges"], where+": calls "+last+"("+strings.Join(args, ", ")+") [ranges over a map, does not sort]")
+				}
 				for _, a := range t.Args {
 					if m := optRe.FindString(text(fset, a)); m != "" && !strings.Contains(text(fset, a), "(") {
 						f["optionReads"] = append(f["optionReads"], where+": "+fun+"(… "+text(fset, a)+" …)")
